@@ -510,7 +510,8 @@ def run_roundtrip(case, ctx):
             dst, dst_rel = signac.init_project(os.path.join(R, "dst")), "dst"
         pre_id = None
         if dest == "preexisting_collision":
-            pj = dst.open_job(json.loads(json.dumps(jobs[0]["sp"])))
+            # (any of the archived jobs may be the one that already exists, not just the first)
+            pj = dst.open_job(json.loads(json.dumps(jobs[int(case.get("collide_idx", 0) or 0) % len(jobs)]["sp"])))
             pj.init()
             pj.doc["pre"] = 1
             fsutil.write_file(os.path.join(pj.path, "pre.txt"), b"pre")
@@ -672,6 +673,12 @@ def run_roundtrip(case, ctx):
                 if not isinstance(imp_exc, DestinationExistsError):
                     got = "no exception" if imp_exc is None else _exc(imp_exc)
                     mm("import_collision_not_raised", f"import onto an existing job ({dest}, {tkind}) gave {got}, expected DestinationExistsError")
+                elif tkind != "dir" and dest == "preexisting_collision":
+                    # archives are analysed completely before anything is copied (documented for the zip
+                    # and tar analysers: DestinationExistsError "if a job is already initialized")
+                    added = [p for p in d12["added"] if p.startswith(ws + "/")]
+                    if added:
+                        mm("import_collision_partial_archive", f"import from {tkind} raised DestinationExistsError but had already copied {added[:4]}")
             if skind == "callable_nonunique" and len(jobs) >= 2 and imp_exc is None:
                 mm("import_nonunique_not_rejected", f"non-injective schema callable accepted for {len(jobs)} jobs ({tkind})")
             must_succeed = (
@@ -1053,7 +1060,7 @@ def roundtrip_cases(draw):
         path = {"kind": pk}
     return {
         "kind": "roundtrip", "jobs": jobs, "target": draw(_targets), "path": path,
-        "schema": {"kind": schema}, "dest": "empty" if friendly else draw(_dests),
+        "schema": {"kind": schema}, "dest": "empty" if friendly else draw(_dests), "collide_idx": draw(st.integers(0, 5)),
     }
 
 
@@ -1107,6 +1114,8 @@ def representatives():
         out.append(_rt(a("x", "x_1", "True"), t, schema="string"))
         out.append(_rt([{"n": {"x": 1}, "b": "x"}, {"n": {"x": 10}, "b": "10"}], t, schema="string"))
         out.append(_rt(a(1, 2), t, dest="preexisting_collision", files=F))
+        for _ci in (1, 2):
+            out.append(dict(_rt(a(1, 2, 3), t, dest="preexisting_collision", files=F), collide_idx=_ci))
         out.append(_rt(a(1, 2), t, dest="self"))
         out.append(_rt(a("../up", 1), t, fmt("{a}")))
         out.append(_rt(a("../../evil", 1), t))
